@@ -7,6 +7,7 @@
 
 mod builder;
 mod common;
+mod descr;
 mod engine;
 mod loader;
 mod operand;
